@@ -26,7 +26,7 @@ T = {
  'C05': ('fused index tables exactly partition the fused charge (sorted, distinct, sizes, signed combination, direction of the first axis); layout and unfuse∘fuse '
          'round trip for ANY list of groups at value level (every original block bit-for-bit, extra blocks zero), for abelian AND fermionic arrays (C05h: the fuse and '
          'unfuse signs cancel); insert = concat strategy (Leibniz equality); generated calc_fuse_group_info and helpers equal the model',
-         'Coq round-trip / invariant proofs over translated source (calc_fuse_group_info, calc_fuse_block_info, _fuse_blocks_via_insert, unfuse, unfuse_all: generated fuse/unfuse = the model) + cases.v correspondence + element-relocation oracle'),
+         'Coq round-trip / invariant proofs over translated source (calc_fuse_group_info, calc_fuse_block_info, _fuse_blocks_via_insert, _fuse_blocks_via_concat, unfuse, unfuse_all: generated fuse/unfuse = the model, generated strategies agree) + cases.v correspondence + element-relocation oracle'),
  'C06': ('alignment drops only partner-less blocks; aligned operands get identical fused tables; fused = blockwise FULL (equal charge, indices and value at every '
          'coordinate), all modes agree; record equality refuted by example (fused stores extra zero blocks), so the statement is at value level',
          'Coq proof over translated source (_tensordot_via_fused, tensordot_abelian front end, fuse wrapper: Gen/FusedTdotGen.v equal to the model) + cases.v correspondence + strategy / pre-fusing oracle incl. exhaustive single-block removal'),
